@@ -5,6 +5,7 @@ use std::io::{BufRead, Write};
 use serde_json::{json, Value};
 
 mod util;
+mod e2e;
 mod c01;
 mod c02;
 mod c03;
